@@ -11,7 +11,7 @@ open Nix Nix.Proto Nix.Drive Nix.Dump
 
 def sessionOps : List String := ["fopen", "fclose", "freopen", "fflush", "fdrop", "fisopen", "fbytes"]
 def readOnlyOps : List String := ["getlinkh", "get", "has", "count", "list", "valid", "drop", "idof", "haslink", "getlink", "countlink", "listlink",
-  "xcheck", "xlinks", "getf", "find", "dump", "dumpx", "validate"]
+  "xcheck", "xlinks", "xfeat", "hdump", "getf", "find", "dump", "dumpx", "validate"]
 
 def implOk (impl : List String) : Bool := impl.head? == some "ok"
 
@@ -113,6 +113,32 @@ def relXcheck (st : StoreSt) (key : String) (impl : List String) (needHasName : 
       ("index_order_is_creation_order", (known.filter fun i => ids.contains i) == (ids.filter fun i => known.contains i)) ]
   | _ => []
 
+/-- C02 / C04 on `hdump`: the record an entity shows through a handle that was held across the history (or through its twin)
+    is the record the fresh walk of the file has just shown for that id — nothing is remembered in a handle -/
+def relHandles (tree : Dump) (held : Dump) : List (String × Bool) :=
+  let same (h r : Rec) : Bool := h.kind == r.kind && h.name == r.name && h.type == r.type && h.created == r.created && h.fields == r.fields
+  [("held_handle_shows_what_the_tree_shows", held.all fun h =>
+      h.id.length != 36 || (match tree.find? (·.id == h.id) with
+        | some r => same h r
+        | none => true))]      -- the entity is gone: what its handle reports is C04's business (`valid`)
+
+/-- C03 on `xfeat`: a feature is found through the name and through the id of its data array (the first feature of that array,
+    when several share it), and the has-queries agree -/
+def relXfeat (impl : List String) : List (String × Bool) :=
+  match impl with
+  | "ok" :: _ :: rest =>
+    let groups := rest.foldr (fun t acc => if t == "|" then [] :: acc else match acc with | [] => [[t]] | h :: r => (t :: h) :: r) [[]]
+    let rows := (groups.filter (· ≠ [])).filter fun r => r.length == 8
+    let firstWith (col : Nat) (v : Option String) : Option String := (rows.find? fun q => q[col]? == v).bind (·[1]?)
+    -- a data array NAMED like the id of another feature / array is resolved as that id first (K1's family): stay silent there
+    let plain (r : List String) : Bool := match r[3]? with
+      | some n => (match Proto.parseStr n with | some s => s.length != 36 | none => false)
+      | none => false
+    [("feature_found_through_its_data_array_name", rows.all fun r => !plain r || r[4]? == firstWith 3 r[3]?),
+     ("feature_found_through_its_data_array_id", rows.all fun r => r[5]? == firstWith 2 r[2]?),
+     ("has_feature_by_data_array", rows.all fun r => (!plain r || r[6]? == some "1") && r[7]? == some "1")]
+  | _ => []
+
 def handleImpl (ds : DState) (op : String) (args impl : List String) : Option (DState × Out) :=
   let st := ds.store
   let ok := implOk impl
@@ -197,6 +223,13 @@ def handleImpl (ds : DState) (op : String) (args impl : List String) : Option (D
       -- features are addressed by id only; they have no name
       fin st (judge s!"xcheck.{kind}" impl impl (relXcheck st key impl (kind != "R")))
     | _ => fin st (.malformed "xcheck")
+  | "xfeat" => fin st (judge "xfeat" impl impl (relXfeat impl))
+  | "hdump" =>
+    match Dump.parse impl, st.lastDump with
+    | some held, some tree =>
+      if st.sinceDump.isEmpty then fin st (judge s!"hdump.{if held.isEmpty then "empty" else "held"}" impl impl (relHandles tree held))
+      else fin st (.ok "hdump.unanchored")
+    | _, _ => fin st (.ok "hdump.unanchored")
   | "xlinks" =>
     match args with
     | [rel, holder] =>
